@@ -275,19 +275,21 @@ def r8_4(prog, rep):
 
 def r8_5(prog, rep):
     dm = prog.fn("matrices.design_matrices")
-    fr = DF.Freshness(dm)
-    c = fr.cfg
-    filt = [s for s in walk_local(dm.node) if isinstance(s, ast.Assign) and unparse(s.targets[0]) == "data" and "incomplete_rows" in unparse(s.value)]
-    mask = [s for s in walk_local(dm.node) if isinstance(s, ast.Assign) and unparse(s.targets[0]) == "incomplete_rows"]
-    ok = len(filt) == 1 and len(mask) == 1
-    if ok:
-        nf, nm = c.node_of(filt[0]), c.node_of(mask[0])
-        d_f = fr.IN[nf].get("data")
-        d_m = fr.IN[nm].get("data")
-        ok = d_f == d_m and c.dominates(nm, nf) and fr.IN[nf].get("incomplete_rows") == frozenset([nm])
-    obl(rep, dm, filt[0] if filt else dm.node, "R8.5", ok,
-        "the row filter data[~incomplete_rows] uses the mask computed from the very same frame (same reaching definition of `data`): boolean indexing is positional whatever the index labels",
-        "", "the mask and the frame it filters come from different definitions of `data`: rows are aligned by index labels")
-    obl(rep, dm, filt[0] if filt else dm.node, "R8.5", bool(filt) and unparse(filt[0].value) == "data[~incomplete_rows]", "rows are selected by the negated boolean mask (no reset/sort of the index)")
+    from . import C09
+    try:
+        D, leaves, filtered = C09.frames_summary(prog, dm)
+    except AnalysisError as e:
+        rep.defer(f"R8.5: {e}")
+        D, leaves, filtered = None, [], set()
+    dl = [x for x in leaves if x[0] == "drop"]
+    flt = [x for x in dl if x[1] in filtered]
+    obl(rep, dm, flt[0][3] if flt else dm.node, "R8.5", D is not None and bool(flt),
+        "the row filter uses the mask computed from the very same frame it filters (same symbolic frame on both sides): boolean "
+        "indexing is positional whatever the index labels",
+        "", "the mask and the frame it filters are not the same frame / no positional filter found: rows are aligned by index labels")
+    bad = [x for x in dl if x[1] not in filtered and x[1] != D]
+    obl(rep, dm, (bad[0][3] if bad else (flt[0][3] if flt else dm.node)), "R8.5", D is not None and not bad,
+        "rows are selected by the negated boolean mask (no label-based drop, no reset/sort of the index)", "",
+        f"under 'drop' the design can receive {sorted({x[1] for x in bad})[:2]}")
     srt = [x for x in calls_in(dm.node, local=False) if isinstance(x.func, ast.Attribute) and x.func.attr in ("sort_values", "sort_index", "reset_index", "sample", "reindex")]
     obl(rep, dm, srt[0] if srt else dm.node, "R8.5", not srt, "design_matrices never sorts, samples or re-indexes the rows")
